@@ -111,8 +111,11 @@ func c18objects(seed int64, keys *gen.KeyRing, n int) []*c18object {
 		if (i/42)%7 == 0 && i%7 == 5 && !decoded {
 			// a hand-assembled message with zero-value Headers (nil maps, no alg): verifiable only with external data
 			ext2 := []byte("external data")
+			// (signed on a copy: the shared object itself has never been through any library call)
+			signedCopy := &cose.Sign1Message{Payload: payload}
 			m := &cose.Sign1Message{Payload: payload}
-			if m.Sign(gen.Entropy, ext2, k.Signer) == nil {
+			if signedCopy.Sign(gen.Entropy, ext2, k.Signer) == nil {
+				m.Signature = signedCopy.Signature
 				o := &c18object{name: fmt.Sprintf("sign1-zero-headers-%d", i), kind: "sign1-nil-header-maps", alg: k.Name}
 				o.state = func() []any { return []any{m, ext2, k.Verifier} }
 				o.ops = []c18op{
